@@ -386,14 +386,13 @@ Definition so_sync (sd : side) (o : nat) : M unit :=
   | Some r => select_init sd o r ;;; upd_inst sd o (fun i => i_with_expired i false)
   end.
 
-(* expire: drop whatever column attributes are there (a missing one is no error), flag, purge the cache entry *)
+(* expire: drop whatever column attributes are there (a missing one is no error), flag, purge the cache entry --
+   also on an instance that is flagged already (no early return) *)
 Definition so_expire (sd : side) (o : nat) : M unit :=
   i <- gets (fun s => get_inst s sd o) ;;
-  if i_expired i then ret tt
-  else
-    upd_inst sd o (fun i => i_with_vals i (map (fun _ => None) (i_vals i))) ;;;
-    upd_inst sd o (fun i => i_with_expired i true) ;;;
-    cache_expire sd (i_id i).
+  upd_inst sd o (fun i => i_with_vals i (map (fun _ => None) (i_vals i))) ;;;
+  upd_inst sd o (fun i => i_with_expired i true) ;;;
+  cache_expire sd (i_id i).
 
 (* destroySelf: Transaction._SO_delete notes the id before it sends the DELETE *)
 Definition so_destroy (sd : side) (o : nat) : M unit :=
@@ -632,26 +631,23 @@ Definition changed (s : st) (id : Z) : bool :=
    instance that would otherwise be left stale.  For every reachable undestroyed parent-side instance
    whose row the transaction changed and which caches something: the id is among those commit walks over
    (ids in the transaction's cache at this moment, or deleted in it) and the parent's cache still hands out
-   this very instance.  (The instance is also required not to be flagged expired while it caches something:
-   a state no operation produces since assignments on expired instances stopped caching.) *)
+   this very instance. *)
 Definition commit_reaches (s : st) : bool :=
   let ids := all_ids s Txn ++ deleted s in
   forallb (fun o =>
              let i := get_inst s Par o in
              negb (reachable_obj s Par o) || i_obsolete i || no_vals i || negb (changed s (i_id i)) ||
              (mem_z (i_id i) ids &&
-              match try_get s Par (i_id i) with Some o' => Nat.eqb o' o | None => false end &&
-              negb (i_expired i)))
+              match try_get s Par (i_id i) with Some o' => Nat.eqb o' o | None => false end))
           (seq_nat (length (heap (par s)))).
 
 (* GUARD of the rollback theorem: every reachable undestroyed transaction-side instance that caches something
-   is still handed out by the transaction's cache (and is not flagged expired, see above) *)
+   is still handed out by the transaction's cache *)
 Definition rollback_reaches (s : st) : bool :=
   forallb (fun o =>
              let i := get_inst s Txn o in
              negb (reachable_obj s Txn o) || i_obsolete i || no_vals i ||
-             (match try_get s Txn (i_id i) with Some o' => Nat.eqb o' o | None => false end &&
-              negb (i_expired i)))
+             match try_get s Txn (i_id i) with Some o' => Nat.eqb o' o | None => false end)
           (seq_nat (length (heap (txn s)))).
 
 (* GUARD of parent-side writes in the history theorem: the other reachable undestroyed parent-side instances
